@@ -1459,6 +1459,13 @@ class FDE:
                         if len(args) > 2:
                             return args[2]
                         raise
+                if (o is None or isinstance(o, (str, int, float, bytes, list, dict, set))) and isinstance(a, str):
+                    if hasattr(o, a) and not callable(getattr(o, a)):
+                        return getattr(o, a)
+                    if not hasattr(o, a):
+                        if len(args) > 2:
+                            return args[2]
+                        raise Raised('AttributeError')
                 raise Unsupported('getattr on %r' % (o,))
             if n == 'isinstance':
                 o, c = args
